@@ -220,6 +220,8 @@ func (ex *Exec) resetPath(prefix []uint64) {
 	ex.asserts = map[string]int{}
 	ex.looseKF = map[string]int{}
 	ex.threads = nil
+	ex.varSubst = map[string]*Term{}
+	ex.rwMemo = nil
 }
 
 func (ex *Exec) runInits() {
@@ -315,6 +317,9 @@ func (e *explorer) merge(ex *Exec, o pathOutcome) {
 		r.Shapes[o.shape]++
 	case "dead":
 		r.DeadPaths++
+		if e.cfg.Debug {
+			fmt.Printf("dead path: %s shape=%s decisions=%v\n", o.msg, o.shape, ex.decisions)
+		}
 	case "violation":
 		r.ViolPaths++
 	case "problem":
